@@ -542,6 +542,10 @@ class Translator:
             if pending:
                 return sp.And(*pending) if len(pending) > 1 else pending[0]
             return res
+        if isinstance(n, ast.NamedExpr) and isinstance(n.target, ast.Name):
+            v_ = self.eval(n.value, env, mod, depth)
+            env[n.target.id] = v_   # (name := value): binds in the enclosing scope and is the value
+            return v_
         if isinstance(n, ast.IfExp):
             c = self.truth(self.eval(n.test, env, mod, depth), n.test)
             return self.eval(n.body if c else n.orelse, env, mod, depth)
